@@ -828,6 +828,60 @@ func ruleCounterPass(c *Ctx, m *counterModel) {
 								bad = append(bad, ksym(fct.Cond))
 							}
 						}
+						// every coin is a fresh bit: the register whose bit decides is shifted (or refilled) on every way
+						// round the pass — no back edge carries it on unchanged
+						for _, fct := range factsAt(in.Block()) {
+							ci, ok := fct.Cond.(ssa.Instruction)
+							if !ok || !loopBlocks(hdr)[ci.Block()] {
+								continue
+							}
+							cmpb, ok := fct.Cond.(*ssa.BinOp)
+							if !ok {
+								continue
+							}
+							and, ok := cmpb.X.(*ssa.BinOp)
+							if !ok || and.Op != token.AND {
+								continue
+							}
+							// the header φ of the register
+							var R *ssa.Phi
+							seenV := map[ssa.Value]bool{}
+							var find func(v ssa.Value, d int)
+							find = func(v ssa.Value, d int) {
+								if seenV[v] || d > 5 || R != nil {
+									return
+								}
+								seenV[v] = true
+								if ph, ok := v.(*ssa.Phi); ok {
+									if ph.Block() == hdr {
+										R = ph
+										return
+									}
+									for _, e := range ph.Edges {
+										find(e, d+1)
+									}
+								}
+							}
+							find(and.X, 0)
+							if R == nil {
+								continue
+							}
+							stale := false
+							for i, e := range R.Edges {
+								if !hdr.Dominates(hdr.Preds[i]) {
+									continue
+								}
+								var lv []ssa.Value
+								phiLeaves(e, map[ssa.Value]bool{R: true}, map[ssa.Value]bool{}, &lv)
+								for _, l := range lv {
+									if l == ssa.Value(R) {
+										stale = true
+									}
+								}
+							}
+							c.sawFn(fnName(fn))
+							c.judge(!stale, "R-PASS-UNIFORM", fnName(fn)+":a fresh bit per element", and.Pos(), "the tested register is shifted or refilled on every way round the pass", fmt.Sprintf("the register whose bit decides (%s) can go round the pass unchanged: consecutive elements are judged by the same bit, so they are kept or dropped together instead of independently", ksym(and.X)))
+						}
 						sort.Strings(bad)
 						c.sawFn(fnName(fn))
 						c.judge(len(bad) == 0, "R-PASS-UNIFORM", fnName(fn)+":removal in the pass", in.Pos(), "conditioned on random bits only", fmt.Sprintf("whether an element is removed in the halving pass also depends on %s: elements are no longer kept with equal probability, which biases the estimate", strings.Join(bad, ", ")))
